@@ -33,7 +33,7 @@ type stormReq struct {
 
 const stormRule = "4-8 client goroutines send 15-40 schedule requests each to 1-2 pipelines (concurrency 1-2, unbounded append queue, no delay) while the jobs' single tasks end by themselves after 0-300 us (built with -race); oracle: for every two jobs of a pipeline such that the request for A had returned before the request for B was made, B does not start before A; after the last request every accepted job completes within 10 s (none is left waiting with the pipeline idle); non-trivial = a request was made while another request or a completion of the same pipeline was in progress; distinct by plan"
 
-func stormCase(rt *rapid.T, prop string, col *ev.Collector) {
+func stormCase(rt *rapid.T, prop string, col *ev.Collector, reloads bool) {
 	nPipes := rapid.IntRange(1, 2).Draw(rt, "pipelines")
 	defs := &definition.PipelinesDef{Pipelines: definition.PipelinesMap{}}
 	w := &world{exec: map[string]map[uuid.UUID]bool{}, limit: map[string]int{}, taskRun: map[string]int{}}
@@ -41,7 +41,14 @@ func stormCase(rt *rapid.T, prop string, col *ev.Collector) {
 	for i := 0; i < nPipes; i++ {
 		name := fmt.Sprintf("p%d", i)
 		conc := rapid.IntRange(1, 2).Draw(rt, "concurrency")
-		defs.Pipelines[name] = definition.PipelineDef{Concurrency: conc, SourcePath: "x", Tasks: map[string]definition.TaskDef{"a": {Script: []string{"a"}}}}
+		tasks := map[string]definition.TaskDef{"a": {Script: []string{"a"}}}
+		if reloads {
+			// (a few more tasks: whatever a schedule request does per task takes longer, and so does any window in it)
+			for k := 0; k < 6; k++ {
+				tasks[fmt.Sprintf("t%02d", k)] = definition.TaskDef{Script: []string{"x"}}
+			}
+		}
+		defs.Pipelines[name] = definition.PipelineDef{Concurrency: conc, SourcePath: "x", Tasks: tasks}
 		w.exec[name] = map[uuid.UUID]bool{}
 		w.limit[name] = conc
 		names = append(names, name)
@@ -92,8 +99,41 @@ func stormCase(rt *rapid.T, prop string, col *ev.Collector) {
 			}
 		}(plans[c])
 	}
+	// (C16) meanwhile the definitions are replaced over and over: the same pipelines with and without a start delay of
+	// 3 ms. Whatever version a job was accepted under, it must start and complete.
+	stopReload := make(chan struct{})
+	var reloadDone sync.WaitGroup
+	nReloads := 0
+	if reloads {
+		alt := &definition.PipelinesDef{Pipelines: definition.PipelinesMap{}}
+		for n, d := range defs.Pipelines {
+			d.StartDelay = 3 * time.Millisecond
+			alt.Pipelines[n] = d
+		}
+		reloadDone.Add(1)
+		go func() {
+			defer reloadDone.Done()
+			<-start
+			for i := 0; ; i++ {
+				select {
+				case <-stopReload:
+					return
+				default:
+				}
+				if i%2 == 0 {
+					pr.ReplaceDefinitions(alt)
+				} else {
+					pr.ReplaceDefinitions(defs)
+				}
+				nReloads++
+				time.Sleep(100 * time.Microsecond)
+			}
+		}()
+	}
 	close(start)
 	wg.Wait()
+	close(stopReload)
+	reloadDone.Wait()
 	// everything settles
 	deadline := time.Now().Add(10 * time.Second)
 	for {
@@ -134,8 +174,8 @@ func stormCase(rt *rapid.T, prop string, col *ev.Collector) {
 	overlap := false
 	for i, a := range reqs {
 		for k, b := range reqs {
-			if i == k || a.pipeline != b.pipeline {
-				continue
+			if i == k || a.pipeline != b.pipeline || reloads {
+				continue // (the order clause is about unchanged definitions)
 			}
 			if a.call.Before(b.answer) && b.call.Before(a.answer) {
 				overlap = true
@@ -164,19 +204,125 @@ func stormCase(rt *rapid.T, prop string, col *ev.Collector) {
 	sctx, scancel := context.WithTimeout(context.Background(), 5*time.Second)
 	_ = pr.Shutdown(sctx)
 	scancel()
-	col.Add(fmt.Sprintf("%v %v", defs.Pipelines, plans), overlap, map[string]int{"overlapping-requests": btoi(overlap), "pipelines>=2": btoi(nPipes >= 2)}, len(reqs), fmt.Sprintf("%d clients, %d requests", nClients, len(reqs)))
+	col.Add(fmt.Sprintf("%v %v", defs.Pipelines, plans), overlap || nReloads > 0, map[string]int{"overlapping-requests": btoi(overlap), "pipelines>=2": btoi(nPipes >= 2), "reloads-during-the-storm": btoi(nReloads > 0)}, len(reqs), fmt.Sprintf("%d clients, %d requests", nClients, len(reqs)))
 }
 
 func TestC06Storm(t *testing.T) {
 	col := ev.Get("C06", "storm", stormRule)
 	atomic.StoreInt64(&taskctl.VerifPause, int64(50*time.Microsecond))
 	defer atomic.StoreInt64(&taskctl.VerifPause, 0)
-	rapid.Check(t, func(rt *rapid.T) { stormCase(rt, "C06", col) })
+	rapid.Check(t, func(rt *rapid.T) { stormCase(rt, "C06", col, false) })
 }
 
 func TestC03Storm(t *testing.T) {
 	col := ev.Get("C03", "storm", stormRule)
 	atomic.StoreInt64(&taskctl.VerifPause, int64(50*time.Microsecond))
 	defer atomic.StoreInt64(&taskctl.VerifPause, 0)
-	rapid.Check(t, func(rt *rapid.T) { stormCase(rt, "C03", col) })
+	rapid.Check(t, func(rt *rapid.T) { stormCase(rt, "C03", col, false) })
+}
+
+// TestC16Storm: the same storm while the definitions are replaced all the time (with / without a start delay of 3 ms):
+// a reload never strands a job, whenever it lands relative to a schedule request.
+func TestC16Storm(t *testing.T) {
+	col := ev.Get("C16", "storm", stormRule+"; here a further goroutine replaces the definitions every 100 us, alternating between the pipelines without and with a start delay of 3 ms (real timers); only the final clause is judged: every accepted job completes")
+	atomic.StoreInt64(&taskctl.VerifPause, int64(50*time.Microsecond))
+	defer atomic.StoreInt64(&taskctl.VerifPause, 0)
+	rapid.Check(t, func(rt *rapid.T) { stormCase(rt, "C16", col, true) })
+}
+
+// TestC16Race: one schedule request at a time for a pipeline with many tasks (whatever the request does per task takes a
+// while) while another goroutine replaces the definitions without pause, with and without a start delay. The job runs
+// with the definition of one instant: either it has no delay and starts at once, or it has its delay and its timer -
+// in both cases it completes soon after. No other request follows that could rescue a job left on the wait list.
+func TestC16Race(t *testing.T) {
+	col := ev.Get("C16", "race", "a pipeline with 150-400 independent tasks (builtin-speed stand-in runner); per round one schedule request is made while a second goroutine replaces the definitions continuously, alternating between no start delay and 3 ms; then the reloads stop and the job must complete within 5 s (nothing else is scheduled that could start a job left waiting); 10-25 rounds per case, built with -race; oracle: every job completes; a job accepted with a start delay does not start earlier than created + delay; non-trivial = the reloads were under way when the request was made; distinct by (tasks, rounds)")
+	atomic.StoreInt64(&taskctl.VerifPause, int64(50*time.Microsecond))
+	defer atomic.StoreInt64(&taskctl.VerifPause, 0)
+	rapid.Check(t, func(rt *rapid.T) {
+		nTasks := rapid.IntRange(150, 400).Draw(rt, "tasks")
+		rounds := rapid.IntRange(10, 25).Draw(rt, "rounds")
+		tasks := map[string]definition.TaskDef{}
+		for k := 0; k < nTasks; k++ {
+			tasks[fmt.Sprintf("t%03d", k)] = definition.TaskDef{Script: []string{"x"}}
+		}
+		plain := &definition.PipelinesDef{Pipelines: definition.PipelinesMap{"p": {Concurrency: 1, SourcePath: "x", Tasks: tasks}}}
+		delayed := &definition.PipelinesDef{Pipelines: definition.PipelinesMap{"p": {Concurrency: 1, SourcePath: "x", Tasks: tasks, StartDelay: 3 * time.Millisecond}}}
+		w := &world{exec: map[string]map[uuid.UUID]bool{"p": {}}, limit: map[string]int{"p": 1}, taskRun: map[string]int{}}
+		ctx, cancel := context.WithCancel(context.Background())
+		defer cancel()
+		pr, err := prunner.NewPipelineRunner(ctx, plain, func(j *prunner.PipelineJob) taskctl.Runner {
+			w.mu.Lock()
+			w.exec[j.Pipeline][j.ID] = true
+			w.mu.Unlock()
+			r := &autoRunner{w: w, jobID: j.ID, pipeline: j.Pipeline, cancelCh: make(chan struct{}), seed: 3} // seed 3: no failures below
+			r.cond = sync.NewCond(&r.mu)
+			return r
+		}, &memStore{}, memOutput{})
+		if err != nil {
+			rt.Fatalf("NewPipelineRunner: %v", err)
+		}
+		pr.ShutdownPollInterval = time.Millisecond
+		overlapping := 0
+		for round := 0; round < rounds; round++ {
+			stop := make(chan struct{})
+			var reloads int64
+			var rd sync.WaitGroup
+			rd.Add(1)
+			go func() {
+				defer rd.Done()
+				for i := 0; ; i++ {
+					select {
+					case <-stop:
+						return
+					default:
+					}
+					if i%2 == 0 {
+						pr.ReplaceDefinitions(delayed)
+					} else {
+						pr.ReplaceDefinitions(plain)
+					}
+					atomic.AddInt64(&reloads, 1)
+				}
+			}()
+			time.Sleep(100 * time.Microsecond)
+			before := atomic.LoadInt64(&reloads)
+			job, err := pr.ScheduleAsync("p", prunner.ScheduleOpts{})
+			during := atomic.LoadInt64(&reloads) - before
+			close(stop)
+			rd.Wait()
+			if err != nil {
+				rt.Fatalf("[C16] round %d: schedule request refused: %v", round, err)
+			}
+			if before > 0 {
+				overlapping++ // the reloader was at work when the request was made
+			}
+			deadline := time.Now().Add(5 * time.Second)
+			for {
+				var completed, started bool
+				var delay time.Duration
+				var created time.Time
+				var startedAt time.Time
+				_ = pr.ReadJob(job.ID, func(j *prunner.PipelineJob) {
+					completed, started, delay, created = j.Completed || j.Canceled, j.Start != nil, j.StartDelay, j.Created
+					if j.Start != nil {
+						startedAt = *j.Start
+					}
+				})
+				if started && delay > 0 && startedAt.Sub(created) < delay {
+					rt.Fatalf("[C16] round %d: a job accepted with a start delay of %s started %s after it was created", round, delay, startedAt.Sub(created))
+				}
+				if completed {
+					break
+				}
+				if time.Now().After(deadline) {
+					rt.Fatalf("[C16] round %d: 5 s after the last reload the job accepted during the reloads (start delay %s, started=%v) has not completed; %d reloads fell into its schedule call", round, delay, started, during)
+				}
+				time.Sleep(100 * time.Microsecond)
+			}
+		}
+		sctx, scancel := context.WithTimeout(context.Background(), 5*time.Second)
+		_ = pr.Shutdown(sctx)
+		scancel()
+		col.Add(fmt.Sprintf("%d/%d", nTasks, rounds), overlapping > 0, map[string]int{"rounds-with-reloads-under-way": overlapping}, rounds, fmt.Sprintf("%d tasks, %d rounds, %d with reloads inside the call", nTasks, rounds, overlapping))
+	})
 }
